@@ -239,6 +239,29 @@ theorem Sys.adEnd_th_other (s : Sys) (t t2 : Nat) (a result : String) (hne : t2 
               Sys.th_setTh_other _ _ _ _ hne]
         · rw [th_withAdapters, Sys.closeGuard_th_other _ _ _ _ hne, Sys.th_setTh_other _ _ _ _ hne]
 
+theorem Sys.closeUnder_th_other (s : Sys) (t t2 : Nat) (hne : t2 ≠ t) : ((s.closeUnder t).1.th t2) = s.th t2 := by
+  unfold Sys.closeUnder
+  dsimp only
+  split
+  · rfl
+  · split
+    · rfl
+    · split
+      · rw [Sys.closeGuard_th_other _ _ _ _ hne, Sys.th_setTh_other _ _ _ _ hne]
+      · rw [Sys.closeGuard_th_other _ _ _ _ hne, Sys.th_setTh_other _ _ _ _ hne]
+      · rfl
+
+theorem Sys.collectUnder_th_other (s : Sys) (t t2 : Nat) (x : String) (hne : t2 ≠ t) :
+    ((s.collectUnder t x).1.th t2) = s.th t2 := by
+  unfold Sys.collectUnder
+  dsimp only
+  split
+  · split
+    · rfl
+    · dsimp only
+      rw [th_withLspans, Sys.putCtr_th_other _ _ _ _ hne, Sys.th_setTh_other _ _ _ _ hne]
+  · rfl
+
 /-- **an operation of thread `t` leaves every other thread's local state exactly as it was** -/
 theorem exec_th_other (s : Sys) (t t2 : Nat) (op : Op) (hne : t2 ≠ t) : (exec s t op).1.th t2 = s.th t2 := by
   cases op with
@@ -390,6 +413,8 @@ theorem exec_th_other (s : Sys) (t t2 : Nat) (op : Op) (hne : t2 ≠ t) : (exec 
     · split
       · rw [Sys.dropSpanVal_th_other _ _ _ _ hne]; rfl
       · rfl
+  | closeUnder => simp only [exec]; exact Sys.closeUnder_th_other s t t2 hne
+  | collectUnder x => simp only [exec]; exact Sys.collectUnder_th_other s t t2 x hne
 
 end Fastrace
 
